@@ -43,6 +43,71 @@ theorem acyclic_failure_is_bad_file (w : World) (hc : w.cancelable = false)
   · exact ⟨g, hg, hb⟩
   · rw [hacyc g] at hcyc; cases hcyc
 
+/-! ### A file on an import cycle never compiles successfully -/
+
+/-- reachability in at least one import step -/
+def TReach (w : World) (f g : File) : Prop := ∃ d, d ∈ w.imports f ∧ Reach w d g
+
+theorem reach_snoc (w : World) {a b c : File} (h : Reach w a b) (hc : c ∈ w.imports b) : Reach w a c := by
+  induction h with
+  | refl f => exact Reach.step hc (Reach.refl c)
+  | step hd _ ih => exact Reach.step hd (ih hc)
+
+/-- the successor of `f` on a cycle through `f` is itself on a cycle -/
+theorem onCycle_succ (w : World) (f d : File) (hd : d ∈ w.imports f) (hr : Reach w d f) : TReach w d d := by
+  cases hr with
+  | refl _ => exact ⟨_, hd, Reach.refl _⟩
+  | step hd' hr' => exact ⟨_, hd', reach_snoc w hr' hd⟩
+
+/-- Z: no successfully finished file lies on an import cycle -/
+def Z (w : World) (s : St) : Prop := ∀ f, finOk s f → ¬ TReach w f f
+
+theorem Z_step (w : World) (s s' : St) (e : Ev) (hK : K w s) (hZ : Z w s) (h : step w s e = some s') :
+    Z w s' := by
+  obtain ⟨f, hf⟩ : ∃ f, f = e.file := ⟨_, rfl⟩
+  unfold Z at *
+  cases e <;> simp only [Ev.file] at hf <;> subst hf <;> simp only [step] at h
+  all_goals (repeat' split at h)
+  all_goals (try (simp at h))
+  all_goals (try (obtain ⟨h1, h2⟩ := h))
+  all_goals (try subst s')
+  all_goals (try (exact hZ))
+  all_goals (intro g hg; by_cases hgf : g = f)
+  all_goals (try (
+    obtain ⟨tg, htg, hpcg⟩ := hg
+    rw [set_task_other _ _ _ _ hgf] at htg
+    exact hZ g ⟨tg, htg, hpcg⟩))
+  all_goals (
+    subst hgf
+    obtain ⟨tg, htg, hpcg⟩ := hg
+    rw [set_task_same] at htg
+    cases htg)
+  all_goals (try (simp at hpcg; done))
+  · -- release of a finished task: it was already finished successfully
+    exact hZ g ⟨_, by assumption, by simpa using hpcg⟩
+  · -- complete(g): all imports of g are already finished successfully, none of them is on a cycle
+    rename_i hc
+    simp only [Bool.and_eq_true, Bool.or_eq_true, beq_iff_eq] at hc
+    intro ⟨d, hd, hr⟩
+    have hk := hK g _ (by assumption)
+    rcases hc.1.1 with ⟨_, hemp⟩ | hpc
+    · have : w.imports g = [] := by simpa using hemp
+      rw [this] at hd; cases hd
+    · simp only [Kat, hpc] at hk
+      exact hZ d (hk.2 d hd) (onCycle_succ w g d hd hr)
+
+theorem Z_reachable (w : World) (s : St) (h : Reachable w s) : Z w s := by
+  induction h with
+  | init => intro f ⟨t, ht, _⟩; simp [init, St.task] at ht
+  | step hr hs ih => exact Z_step w _ _ _ (K_reachable w _ hr) ih hs
+
+/-- **C06 (cycles are never silently accepted).** On every run, a file whose result is ready and
+    successful reaches no import cycle: neither it nor anything it transitively imports lies on a
+    cycle. Hence whenever the requested files reach a cycle and the call returns, it returns an error. -/
+theorem success_reaches_no_cycle (w : World) (s : St) (hr : Reachable w s) (f g : File)
+    (hf : finOk s f) (hfg : Reach w f g) : ¬ TReach w g g :=
+  Z_reachable w s hr g (success_sound w s hr f g hfg hf).1
+
 /-- Full termination statement: from every reachable state in which some requested result is not
     ready, some transition is enabled. PROVED for acyclic graphs (`no_stuck_state_acyclic` below);
     open for graphs with cycles. -/
@@ -78,6 +143,7 @@ example : ∃ rank : File → Nat, ∀ f d,
 
 end PCV.Props.C06
 
+#print axioms PCV.Props.C06.success_reaches_no_cycle
 #print axioms PCV.Props.C06.no_stuck_state_acyclic
 #print axioms PCV.Props.C06.acyclic_never_cycle_error
 #print axioms PCV.Props.C06.selfimport_sound
